@@ -471,6 +471,74 @@ pub fn write_tie(
 			},
 			Err(e) => problems.push(format!("write tie: tree dump failed: {:?}", e)),
 		}
+		state.remove(&k3);
+	}
+	if !problems.is_empty() {
+		return problems
+	}
+	// ---- fourth transaction: Set of an absent key whose leaf is FULL and whose parent has room (one leaf split)
+	let dump4 = match parity_db::verif::btree_dump(db, 0) {
+		Ok(d) => d,
+		Err(e) => {
+			problems.push(format!("write tie: tree dump failed: {:?}", e));
+			return problems
+		},
+	};
+	let splitting: Vec<&Vec<u8>> = cfg
+		.pool
+		.iter()
+		.filter(|k| !state.contains_key(*k) && k.len() * 2 < MAX_LINE / 4)
+		.filter(|k| matches!(locate2(&dump4, k), Some((8, false, true, Some(p))) if p < 8))
+		.collect();
+	if splitting.is_empty() {
+		ctr.inc("phys.split.no_candidate");
+	} else {
+		let k4 = splitting[rng.below(splitting.len() as u64) as usize].clone();
+		let len4 = rng.below(200) as usize;
+		let v4: Vec<u8> = (0..len4).map(|_| (rng.next() >> 17) as u8).collect();
+		step(db.commit(vec![(0u8, k4.clone(), Some(v4.clone()))]), "commit (split)", &mut problems);
+		step(db.process_commits().map(|_| ()), "process_commits", &mut problems);
+		step(db.flush_logs().map(|_| ()), "flush_logs", &mut problems);
+		for _ in 0..2 {
+			step(db.enact_logs().map(|_| ()), "enact_logs", &mut problems);
+			step(db.clean_logs().map(|_| ()), "clean_logs", &mut problems);
+		}
+		if !problems.is_empty() {
+			return problems
+		}
+		let after4 = match read_tables(db) {
+			Ok(x) => x,
+			Err(e) => {
+				problems.push(e);
+				return problems
+			},
+		};
+		let compressed4 = if matches!(cfg.compression, CompressionType::NoCompression) {
+			"none".to_string()
+		} else {
+			hex(&parity_db::verif::compress(cfg.compression, &v4))
+		};
+		ctr.inc("phys.split.lines");
+		t.op(&format!("c04b phys split {} {} {} {}", hex(&k4), hex(&v4), threshold, compressed4), "ok");
+		t.op("c04b phys digest", &digest(&after4));
+		ctr.add("phys.split.slots_compared", after4.iter().map(|t| t.raw.len() as u64).sum());
+		let mut s4 = v4.clone();
+		let mut f4 = 0;
+		if compressed4 != "none" && v4.len() > threshold as usize {
+			let c = parity_db::verif::compress(cfg.compression, &v4);
+			if c.len() < v4.len() {
+				s4 = c;
+				f4 = 1;
+			}
+		}
+		t.op(&format!("c04b phys get {}", hex(&k4)), &format!("some {} {} {}", s4.len(), f4, fnv_bytes(&s4)));
+		match parity_db::verif::btree_dump(db, 0) {
+			Ok(d5) =>
+				if let Some(line) = classify(&after4, &d5, ctr, &mut problems) {
+					t.op("c04b phys inv", &line);
+				},
+			Err(e) => problems.push(format!("write tie: tree dump failed: {:?}", e)),
+		}
 	}
 	problems
 }
@@ -478,8 +546,14 @@ pub fn write_tie(
 /// where the descent for `key` ends in the dumped tree: (separators of that node, key held by it,
 /// the node is at leaf level)
 fn locate(d: &TreeDump, key: &[u8]) -> Option<(usize, bool, bool)> {
+	locate2(d, key).map(|(a, b, c, _)| (a, b, c))
+}
+
+/// as `locate`, plus the number of separators of the parent of that node
+fn locate2(d: &TreeDump, key: &[u8]) -> Option<(usize, bool, bool, Option<usize>)> {
 	let mut n = d.root_node.as_ref()?;
 	let mut level = 0u32;
+	let mut parent: Option<usize> = None;
 	loop {
 		let mut i = 0;
 		let mut found = false;
@@ -494,10 +568,11 @@ fn locate(d: &TreeDump, key: &[u8]) -> Option<(usize, bool, bool)> {
 			}
 		}
 		if found || level == d.depth {
-			return Some((n.separators.len(), found, level == d.depth))
+			return Some((n.separators.len(), found, level == d.depth, parent))
 		}
 		match n.children.get(i) {
 			Some((_, Some(c))) => {
+				parent = Some(n.separators.len());
 				n = c;
 				level += 1;
 			},
